@@ -252,6 +252,12 @@ impl<'a> SendStream<'a> {
             .ok_or(WriteError::ClosedStream)?;
 
         if limit == 0 {
+            // A stopped stream must report `Stopped` even while the connection is blocked: the
+            // `Stopped` event wakes a blocked writer only once, and a stream whose own flow control
+            // window is exhausted is not reported as writable again when the connection unblocks.
+            if let Some(error_code) = stream.stop_reason {
+                return Err(WriteError::Stopped(error_code));
+            }
             trace!(
                 stream = %self.id, max_data = self.state.max_data, data_sent = self.state.data_sent,
                 "write blocked by connection-level flow control or send window"
